@@ -126,6 +126,9 @@ def error_snippets():
 
 def relayout(rnd, s):
     r = rnd.random()
+    if rnd.random() < 0.25:
+        # the error (and any multi-line span) at an arbitrary line offset
+        s = "".join(rnd.choice(["pass\n", "\n", "# c\n", "x = 1\n"]) for _ in range(rnd.randint(1, 24))) + s
     if r < 0.15:
         return "\n\n" + s
     if r < 0.3:
